@@ -16,7 +16,7 @@ import numpy as np
 from simkit import gen, scenes, world
 from simkit.core import Counter, EventLog, Outcome, Streams, SutError, Violation
 
-from .c06 import BUILDS, build_etc, run_tracking
+from .c06 import BUILDS, build_etc, run_tracking, tkey
 
 PROPERTY = "C07"
 LEVEL = "exploration"
@@ -66,6 +66,11 @@ def generate(streams: Streams, tier: str, index: int) -> dict:
         # a time course followed backwards: strictly DEcreasing time stamps (C07 does not ask
         # for increasing ones; every oracle here works on frame indices)
         hist = {**hist, "frames": [{**f, "t": -float(gen.make_time(f["t"]))} for f in hist["frames"]]}
+    elif crng.random() < 0.04 and hist["frames"]:
+        # integer time stamps that no double can hold exactly (nanosecond epoch counters)
+        t0 = crng.choice([2 ** 60, 2 ** 53, 1_790_000_000_000_000_000])
+        step = crng.choice([1, 1, 3, 1000])
+        hist = {**hist, "frames": [{**f, "t": t0 + 1 + k * step} for k, f in enumerate(hist["frames"])]}
     configs = []
     for _ in range(crng.choice([2, 3, 4])):
         method = crng.choice(["overlap", "distance"])
@@ -99,14 +104,18 @@ def tri(value: float, threshold: float, margin: float) -> int:
 def links_from_tracks(tracks, frame_keys):
     """Map (frame index f, droplet index in frame f) -> (f-1, index) or None (track start).
 
+    Droplets are located by their exact time stamp, class and bits; a droplet whose stamp is
+    not the stamp of any frame (that is C06's business) is located by class and bits alone.
     Returns None when a droplet cannot be located uniquely (duplicates): caller skips.
     """
     links = {}
     for tr in tracks:
         prev = None
         for t, d in zip(tr.times, tr.droplets):
-            key = (float(t).hex(), type(d).__name__, d.data.tobytes())
+            key = (tkey(t), type(d).__name__, d.data.tobytes())
             loc = frame_keys.get(key)
+            if loc is None:
+                loc = frame_keys.get((None,) + key[1:])
             if loc is None or len(loc) != 1:
                 return None
             cur = loc[0]
@@ -211,7 +220,8 @@ def execute(case: dict) -> Outcome:
         frame_keys: dict = {}
         for fi, (t, em) in enumerate(zip(etc.times, etc.emulsions)):
             for di, d in enumerate(em):
-                frame_keys.setdefault((float(t).hex(), type(d).__name__, d.data.tobytes()), []).append((fi, di))
+                for tk in (tkey(t), None):
+                    frame_keys.setdefault((tk, type(d).__name__, d.data.tobytes()), []).append((fi, di))
         links = links_from_tracks(tracks, frame_keys)
         if links is None:
             cnt.inc("probe.unlocatable_droplets")
